@@ -25,7 +25,7 @@ ASSUMPTIONS = [
 COMPONENTS = {'real': ['yldprolog.engine query/load_script_from_string/load_script_from_file/register_function/chain_functions/assert_fact/clear', 'compiler output for the snippets'],
               'stub': ['file system seen by load_script_from_file (in-memory fake open, injects I/O errors)', 'native predicates (tagged answers)'],
               'oracle': ['definition-table model: per name/arity facts first, then the chain of definitions registered for exactly that arity, variadic only if none, each definition with its own cut']}
-REQUIRED_PROBES = ('readback_through_meta_calls', 'op_reg_decorated', 'op_reg_star-rest', 'assert_with_atom_object_not_current', 'op_reg_partial', 'op_reg_bound-method', 'op_reg_callable-object', 'op_regfail', 'suspended_call_resumed_after_change', 'op_load_overwrite', 'op_load_append', 'op_loadfail_syntax', 'op_loadfail_raise', 'op_loadfail_io', 'op_reg_inferred', 'op_reg_explicit',
+REQUIRED_PROBES = ('readback_first_argument_bound_over_many_facts', 'op_assertbulk', 'readback_through_meta_calls', 'op_reg_decorated', 'op_reg_star-rest', 'assert_with_atom_object_not_current', 'op_reg_partial', 'op_reg_bound-method', 'op_reg_callable-object', 'op_regfail', 'suspended_call_resumed_after_change', 'op_load_overwrite', 'op_load_append', 'op_loadfail_syntax', 'op_loadfail_raise', 'op_loadfail_io', 'op_reg_inferred', 'op_reg_explicit',
                    'op_reg_variadic', 'op_assert', 'op_clear', 'chain_of_2plus_definitions', 'variadic_used', 'variadic_shadowed_by_exact', 'reserved_name_registered',
                    'load_via_file')
 
@@ -49,6 +49,8 @@ SNIPPETS = [
     # predicates whose *names* equal the internal keys of other predicates (p/1 is stored as 'p_1', q/2 as 'q_2')
     # a directly recursive predicate: the inner call rp(s12a) is a call like any other (facts first, every definition of rp/1)
     ("rp(s12a).\nrp(X) :- X = s12b, rp(s12a).\n", {('rp', 1): ['selfrec', 's12a', 's12b']}),
+    # a script that installs more than 16 definitions
+    (''.join('fill%02d(b%02d).\n' % (i, i) for i in range(20)) + "r(s13r).\nsub(s13s).\n", {('r', 1): ['rows', [['s13r']], None], ('sub', 1): ['rows', [['s13s']], None]}),
     ("p_1.\np_1(s11a).\nq_2(s11b).\n", {('p_1', 0): ['rows', [[]], None], ('p_1', 1): ['rows', [['s11a']], None], ('q_2', 1): ['rows', [['s11b']], None]}),
 ]
 NAMES = [('rp', 1), ('p_1', 0), ('p_1', 1), ('q_2', 1), ('is_a', 1), ('is_a', 2), ('my_long_name', 2), ('p', 0), ('p', 1), ('p', 2), ('p', 3), ('q', 2), ('r', 1), ('main', 1), ('sub', 1), ('zz', 1), ('q', 1), ('atom', 1), ('query', 2), ('unify', 2), ('sub', 0)]
@@ -135,7 +137,21 @@ def gen(seed, tier):
                 ops.append(['qstep', rng.randrange(2)])
                 continue
             k = rng.random()
-        if k < 0.36:
+        if k < 0.03:
+            # load a script, re-register one of the predicates it defines, load the very same script again with overwrite
+            i = rng.randrange(len(SNIPPETS))
+            via = 'file' if rng.random() < 0.3 else 'string'
+            cands = [key for key in SNIPPETS[i][1] if key in REG_TARGETS]
+            if cands:
+                name, ar = rng.choice(cands)
+                ops.append(['load', i, True, via])
+                ops.append(['reg', name, ar, rng.choice(['inferred', 'explicit', 'variadic']), rng.random() < 0.5, 'function'])
+                ops.append(['load', i, True, via])
+        elif k < 0.05:
+            # many facts at once, one of the early ones with an unbound first argument
+            name, ar = rng.choice([('p', 1), ('p', 2), ('is_a', 1), ('sub', 1), ('r', 1), ('q', 2)])
+            ops.append(['assertbulk', name, ar, rng.choice((20, 34, 40)), rng.randrange(0, 6)])
+        elif k < 0.36:
             ops.append(['load', rng.randrange(len(SNIPPETS)), rng.random() < 0.5, 'file' if rng.random() < 0.3 else 'string'])
         elif k < 0.36 + p_fail:
             kind = rng.choice(['syntax', 'raise', 'nofile', 'perm', 'decode', 'ioerror'])
@@ -156,7 +172,7 @@ def gen(seed, tier):
             ops.append(['regfail', name, rng.choice(('not-callable', 'no-signature'))])
         else:
             ops.append(['clear'])
-    return {'ops': ops}
+    return {'ops': ops, 'readback_every': rng.choice((1, 1, 1, 1, 3, 1000))}
 
 
 def show_op(op):
@@ -168,6 +184,8 @@ def show_op(op):
         return 'register_function %s/%d %s yields %s%s' % (op[1], op[2], op[3], op[4], '' if len(op) < 6 or op[5] == 'function' else ' as a ' + op[5])
     if op[0] == 'assert':
         return 'assert_fact %s/%d %s%s' % (op[1], op[2], 'front' if op[3] else 'back', '' if len(op) < 5 or op[4] == 'current' else ' (name atom: %s)' % op[4])
+    if op[0] == 'assertbulk':
+        return 'assert_fact %d facts on %s/%d, fact #%d with an unbound first argument' % (op[3], op[1], op[2], op[4])
     if op[0] == 'qstart':
         return 'call %s/%d and take its first answer (keep the generator suspended)' % (op[1], op[2])
     if op[0] == 'qstep':
@@ -276,6 +294,28 @@ def execute(plan):
             want = m.answers(key)[:READ_CAP]
             if got != want:
                 return {'predicate': '%s/%d' % key, 'engine': got[:10], 'model': want[:10]}
+            if key[1] >= 1 and len(m.facts.get(key, [])) >= 20 and key[0] not in RESERVED and key != ('rp', 1):
+                ds_ = m.defs.get(key) or m.var.get(key[0]) or []
+                if all((d[0] == 'rows' and d[2] is None) or d[0] == 'py' for d in ds_):
+                    # many facts: the same call with its first argument bound (facts first, in order - whatever the engine
+                    # uses to find the candidates)
+                    full = m.answers(key)
+                    vals = [r[0] for r in full if r[0] is not None]
+                    for val in (vals[len(vals) // 2:][:1] + vals[-1:]):
+                        vs = [yp.variable() for _ in range(key[1] - 1)]
+                        args = [yp.atom(val)] + vs
+                        try:
+                            got = []
+                            for _ in yp.query(key[0], args):
+                                got.append([to_python(a) for a in args])
+                                if len(got) >= READ_CAP:
+                                    break
+                        except Exception as e:
+                            return {'predicate': '%s/%d with first argument %s' % (key[0], key[1], val), 'raises': type(e).__name__}
+                        want2 = [[val] + r[1:] for r in full if r[0] is None or r[0] == val][:READ_CAP]
+                        log.count('readback_first_argument_bound_over_many_facts')
+                        if got != want2:
+                            return {'predicate': '%s/%d with first argument %s' % (key[0], key[1], val), 'engine': got[:10], 'model': want2[:10]}
             if key[1] == 0 or len(m.answers(key)) > 60:
                 continue
             # the same call made by the meta-call builtins: call/1 and findall/3 resolve name/N like any other call
@@ -314,6 +354,7 @@ def execute(plan):
 
     kept = {}
     other = YP()
+    opno = [0]
     suspended = []       # (generator, variables, answers expected when the call was made, next index)
     for op in plan['ops']:
         kind = op[0]
@@ -461,6 +502,19 @@ def execute(plan):
                 yp.assert_fact(name_atom, [yp.atom(x) for x in row], not front)
                 lst = m.facts.setdefault((name, ar), [])
                 lst.insert(0, row) if front else lst.append(row)
+            elif kind == 'assertbulk':
+                _, name, ar, nf, vp = op
+                log.count('op_assertbulk')
+                lst = m.facts.setdefault((name, ar), [])
+                for j in range(nf):
+                    counter[0] += 1
+                    row = ['f%d' % counter[0]] * ar
+                    erow = [yp.atom(x) for x in row]
+                    if j == vp:
+                        row = [None] + row[1:]
+                        erow = [yp.variable()] + erow[1:]
+                    yp.assert_fact(yp.atom(name), erow)
+                    lst.append(row)
             elif kind == 'clear':
                 log.count('op_clear')
                 yp.clear()
@@ -478,6 +532,10 @@ def execute(plan):
                     log.count('variadic_shadowed_by_exact')
                 else:
                     log.count('variadic_used')
+        opno[0] += 1
+        if opno[0] % plan.get('readback_every', 1) and opno[0] != len(plan['ops']):
+            log.count('ops_without_readback')
+            continue
         diff = readback()
         if diff:
             diff['after'] = show_op(op)
